@@ -3,6 +3,7 @@ import Driver.VM
 import Driver.MinerLedger
 import Driver.Cron
 import Driver.Multisig
+import Driver.EvmStorage
 
 /-- generic stdin/stdout loop over a pure handler -/
 partial def loop {σ : Type} (h : IO.FS.Stream) (out : IO.FS.Stream) (step : σ → String → σ × String)
@@ -23,4 +24,5 @@ def main (args : List String) : IO UInt32 := do
   | ["minerledger"] => loop stdin stdout Driver.MinerLedger.handle []; return 0
   | ["cron"] => loop stdin stdout Driver.Cron.handle (); return 0
   | ["multisig"] => loop stdin stdout Driver.Multisig.handle []; return 0
+  | ["evmstorage"] => loop stdin stdout Driver.EvmStorage.handle (Driver.EvmStorage.State.init 0); return 0
   | _ => IO.eprintln "usage: driver <model>"; return 2
